@@ -50,6 +50,22 @@ func (l *lockedBuf) Write(p []byte) (int, error) {
 	return l.buf.Write(p)
 }
 
+// raceWriter is a caller-side writer whose accesses are visible to the race oracle.
+type raceWriter struct {
+	mark int
+	buf  bytes.Buffer
+}
+
+func (w *raceWriter) Write(p []byte) (int, error) {
+	*vsched.W(&w.mark)++
+	return w.buf.Write(p)
+}
+
+func (w *raceWriter) String() string {
+	_ = *vsched.R(&w.mark)
+	return w.buf.String()
+}
+
 // c12Body returns the concurrent body and a function giving the observation string of its calls.
 func c12Body(c *c12Case, results *[2]string) func() {
 	par := func(f0, f1 func() string) func() {
@@ -71,7 +87,11 @@ func c12Body(c *c12Case, results *[2]string) func() {
 	switch c.Scenario {
 	case "pipeline":
 		return func() {
-			results[0] = parseObsStr(impl.ParseFile(impl.NewScriptFile(c.A, c.Script)))
+			// the caller's writers are plain (unsynchronised) buffers: the caller reads them once the call
+			// has returned, so any write by a goroutine of the call must happen-before the return
+			out, log := &raceWriter{}, &raceWriter{}
+			p, err := bcl.ParseFile(impl.NewScriptFile(c.A, c.Script), bcl.OptOutput(out), bcl.OptLogger(log))
+			results[0] = parseObsStr(impl.Parsed{Prog: p, Err: err, Log: log.String(), Out: out.String()})
 		}
 	case "parse2":
 		return par(func() string { return parseObsStr(impl.Parse(c.A)) }, func() string { return parseObsStr(impl.Parse(c.B)) })
@@ -313,6 +333,10 @@ func init() {
 			for _, in := range pipeInputs {
 				n := len(in)
 				for _, sc := range [][]impl.Answer{impl.Chunks(n/3, n/3), impl.Chunks(8, 8), impl.Chunks(n / 2), impl.Chunks(3, 5, 8)} {
+					c.Do(subC12, &c12Case{Scenario: "pipeline", A: in, Script: sc, Bound: bound})
+				}
+				// a read error after some data was delivered (the parser is still busy with it)
+				for _, sc := range [][]impl.Answer{{{N: 8}, {N: 0, Err: "boom"}}, {{N: 8}, {N: 8}, {N: 0, Err: "boom"}}, {{N: n / 2, Err: "boom"}}} {
 					c.Do(subC12, &c12Case{Scenario: "pipeline", A: in, Script: sc, Bound: bound})
 				}
 			}
